@@ -12,8 +12,16 @@ pub struct Verdict {
 }
 
 pub fn judge(trace: &Trace) -> Verdict {
+    judge_for(trace, None)
+}
+
+pub fn judge_for(trace: &Trace, prop: Option<&str>) -> Verdict {
     let t = trace.clone();
-    let r = std::panic::catch_unwind(move || crate::exec::execute(&t, &ExecOpts::default()));
+    let opts = match prop {
+        Some(p) => ExecOpts::for_prop(p),
+        None => ExecOpts::default(),
+    };
+    let r = std::panic::catch_unwind(move || crate::exec::execute(&t, &opts));
     match r {
         Ok(res) => Verdict {
             failures: res.failures,
@@ -62,7 +70,7 @@ pub fn shrink(trace: &Trace, prop: &str, check: &str, budget: usize) -> Trace {
             return false;
         }
         *spent += 1;
-        let v = judge(cand);
+        let v = judge_for(cand, Some(prop));
         if let Some(tick) = has_target(&v, prop, check) {
             let mut c = cand.clone();
             // nothing after the failing event matters
